@@ -4,6 +4,7 @@
 //! The plan comes as arguments (one token each):
 //!   bin=<path> arg=<a>.. env=<K=v>.. cwd=<dir> uid=<n> gid=<n> pg=<n>
 //!   in=|out=|err=<inherit|null|pipe|fd:N>  pre=<code>..   (0 ok, >0 Os error, -1 error without code)
+//!   wait=try  (Child::try_wait loop instead of Child::wait)
 //! Everything is reported through markers (writes to descriptor -1) which the tracer logs together
 //! with the descriptor table of the marking task:
 //!   MARK:spawn:begin / MARK:returned:ok:<in>,<out>,<err> (descriptor numbers of the Child's pipes,
@@ -70,6 +71,7 @@ pub fn main() -> i32 {
     let (mut uid, mut gid, mut pg) = (None, None, None);
     let (mut sin, mut sout, mut serr) = (None, None, None);
     let mut pre: Vec<i32> = Vec::new();
+    let mut try_mode = false;
     for a in tiny_std::env::args().skip(1) {
         let a = a.unwrap();
         let (k, v) = a.split_once('=').unwrap();
@@ -85,6 +87,7 @@ pub fn main() -> i32 {
             "out" => sout = stdio(v),
             "err" => serr = stdio(v),
             "pre" => pre.push(num(v)),
+            "wait" => try_mode = v == "try",
             _ => return 2,
         }
     }
@@ -153,7 +156,22 @@ pub fn main() -> i32 {
     }
     if let Ok(mut child) = res {
         m.clear();
-        match child.wait() {
+        let waited = if try_mode {
+            // Child::try_wait until the child is gone
+            loop {
+                match child.try_wait() {
+                    Ok(Some(st)) => break Ok(st),
+                    Ok(None) => unsafe {
+                        let ts: [i64; 2] = [0, 500_000];
+                        sc::syscall!(NANOSLEEP, ts.as_ptr(), 0);
+                    },
+                    Err(e) => break Err(e),
+                }
+            }
+        } else {
+            child.wait()
+        };
+        match waited {
             Ok(st) => {
                 let _ = write!(m, "MARK:waited:ok:{st}");
             }
